@@ -703,8 +703,9 @@ Interpolation Perform_KDE(std::vector<DataPoint> data, double xMin, double xMax,
 
 	Interpolation result(Interpol_List);
 
-	// 3. Check normalization/ re-normalize.
-	double norm = Integrate(result, xMin, xMax, 1e-8);
+	// 3. Check normalization/ re-normalize. (The exact integral of the interpolating curve: an adaptive quadrature with an absolute
+	// tolerance can miss a kernel that is narrow compared with the window altogether.)
+	double norm = result.Integrate(xMin, xMax);
 	result.Multiply(1.0 / norm);
 
 	return result;
